@@ -10,6 +10,7 @@ VT in_v;
 int main(void)
 {
   g_nt = (struct numtext_ghost){0}; /* dfcc starts statics in an arbitrary state */
+  g_nt.err = nondet_int();          /* errno left behind by whatever ran before: arbitrary */
   econf_file *ef = malloc(sizeof(econf_file));
   __CPROVER_assume(ef != NULL);
   size_t num = nondet_size_t();
